@@ -85,3 +85,12 @@ Theorem C09_generate_no_disabled :
        mentions p (TObj fs) = false.
 Proof. exact StrTypes.generate_no_disabled. Qed.
 
+
+(* (T) the registry regenerated from the source: registration order, replace pairs, acyclicity *)
+From J2M.Gen Require StrReg.
+Theorem C09_link_default_registry : StrReg.default_registry = (PInt :: PFloat :: PBool :: nil).
+Proof. reflexivity. Qed.
+Theorem C09_link_default_replaces_acyclic : acyclic StrReg.default_replaces.
+Proof. exact StrTypes.default_replaces_acyclic. Qed.
+Theorem C09_link_datetime_registration : StrReg.datetime_registration = (PDate :: PTime :: PDatetime :: nil).
+Proof. reflexivity. Qed.
